@@ -22,31 +22,57 @@ class FakeFS:
     def put(self, name: str, content: str, mode: int) -> None:
         self.files[name] = [content, mode]
 
-    def open(self, name: typing.Any, mode: str = "r", encoding: typing.Optional[str] = None) -> typing.Any:
+    def open(self, name: typing.Any, mode: str = "r", encoding: typing.Optional[str] = None,
+             opener: typing.Optional[typing.Callable] = None, **_kw: typing.Any) -> typing.Any:
         name = str(name)
         if mode == "w":
+            import os
+            flags = os.O_WRONLY | os.O_CREAT | os.O_TRUNC
+            if opener is not None:
+                # io.open(..., opener=f) calls f(path, flags) which is expected to call os.open(); model that call
+                rec: typing.Dict[str, int] = {}
+                real = os.open
+
+                def _fake_os_open(path: typing.Any, fl: int, mode: int = 0o777, **k: typing.Any) -> int:
+                    rec["flags"] = fl
+                    return 1 << 20
+
+                os.open = _fake_os_open  # type: ignore
+                try:
+                    opener(name, flags)
+                finally:
+                    os.open = real
+                flags = rec.get("flags", flags)
+            old = ""
             if name in self.files:
+                if flags & os.O_EXCL:
+                    raise FileExistsError(name)
                 if not (self.files[name][1] & 0o200):
                     raise PermissionError(name)
-                self.files[name][0] = ""
+                if not (flags & os.O_TRUNC):
+                    old = self.files[name][0]
+                self.files[name][0] = old
             else:
+                if not (flags & os.O_CREAT):
+                    raise FileNotFoundError(name)
                 self.files[name] = ["", 0o644]
             self.log.append(("open-w", name))
-            return _WFile(self, name)
+            return _WFile(self, name, old)
         if name not in self.files:
             raise FileNotFoundError(name)
         return _RFile(self.files[name][0])
 
 
 class _WFile:
-    def __init__(self, fs: FakeFS, name: str) -> None:
-        self.fs, self.name_, self.parts = fs, name, []   # type: ignore
+    def __init__(self, fs: FakeFS, name: str, old: str = "") -> None:
+        self.fs, self.name_, self.parts, self.old = fs, name, [], old   # type: ignore
 
     def write(self, x: str) -> None:
         self.parts.append(x)
 
     def close(self) -> None:
-        self.fs.files[self.name_][0] = "".join(self.parts)
+        new = "".join(self.parts)
+        self.fs.files[self.name_][0] = new + self.old[len(new):]     # without O_TRUNC stale bytes past the new text survive
 
     def __enter__(self) -> "_WFile":
         return self
